@@ -514,8 +514,43 @@ def memory_containers(prog):
             if isinstance(val, ast.Dict) or (isinstance(val, ast.Call) and norm(val.func) in ("dict", "defaultdict", "collections.defaultdict", "OrderedDict")):
                 out.append(tgt.attr)
     if len(out) < 2:
+        shared = class_level_containers(prog, ("MemoryStorage",))
+        if shared:
+            return out + [a for _, a, _ in shared]
         raise AnalysisError(f"MemoryStorage.__init__: expected the two per-bucket containers, found {out}")
     return out
+
+
+def class_level_containers(prog, classes=STORAGE_CLASSES + ("Datastore", "Bucket", "AbstractStorage")):
+    """mutable containers bound at class level: ONE object shared by every instance of the class"""
+    out = []
+    for cname in classes:
+        ci = prog.cls(cname)
+        for a, v in ci.attrs.items():
+            if isinstance(v, (ast.Dict, ast.List, ast.Set)) or (isinstance(v, ast.Call) and norm(v.func) in ("dict", "list", "set", "defaultdict", "collections.defaultdict", "OrderedDict", "deque", "collections.deque")):
+                # only when instances mutate it through self (a constant table that is only read is harmless)
+                mutated = False
+                for m in ci.methods.values():
+                    for n in walk_with_nested_exprs(m.node):
+                        if isinstance(n, ast.Subscript) and isinstance(n.ctx, (ast.Store, ast.Del)) and norm(n.value) == f"self.{a}":
+                            mutated = True
+                        if isinstance(n, ast.Call) and isinstance(n.func, ast.Attribute) and norm(n.func.value) == f"self.{a}" and n.func.attr in ("append", "extend", "insert", "pop", "remove", "clear", "update", "setdefault", "add", "popitem"):
+                            mutated = True
+                        if isinstance(n, ast.Delete) and any(isinstance(t, ast.Subscript) and norm(t.value) == f"self.{a}" for t in n.targets):
+                            mutated = True
+                rebound = any(isinstance(n, (ast.Assign, ast.AnnAssign)) and any(norm(t) == f"self.{a}" for t in (n.targets if isinstance(n, ast.Assign) else [n.target])) for n in walk_own(ci.methods["__init__"].node)) if "__init__" in ci.methods else False
+                if mutated and not rebound:
+                    out.append((ci, a, v))
+    return out
+
+
+def instance_state(prog, rep, rule="INSTANCE-STATE"):
+    rep.rule(rule, "per-bucket state lives on the instance: no class of the datastore layer binds a mutable container at class level and then writes into it through self (every instance, i.e. every open datastore, would share it)")
+    shared = class_level_containers(prog)
+    for ci, a, v in shared:
+        rep.violation(rule, ci.name, f"{ci.name}.{a}", f"`{a} = {norm(v)}` is bound at class level and written through self: every {ci.name} instance in the process shares this one object, so buckets, events or cached keys of one datastore show up in, are overwritten by, or are deleted through another", f"{ci.mod.relpath}:{v.lineno}")
+    if not shared:
+        rep.ok(rule, "aw_datastore", "class-level containers", "none that instances write into", None)
 
 
 # ---------------------------------------------------------------------------
